@@ -97,5 +97,4 @@ theorem set_get : ∀ (f : File) (n v : String) (f' : File), set f n v = some f'
           | true => rfl
           | false => exact i2 m hm
 
-#print axioms set_get
 end P.Meta
